@@ -58,7 +58,7 @@ BASE_CONSTANTS = {
     "G_NonVoterNoElection": "TRUE", "G_StepDownWhenDemoted": "TRUE",
     "G_XferCaughtUp": "TRUE", "G_XferBlocksEntries": "TRUE", "G_XferSuccessOnHigherTerm": "TRUE", "G_CommitMonotone": "TRUE",
     "MaxRoundOrd": 3, "SegSize": 1024, "UpdBytes": 300, "MaxSnaps": 0, "FixD4": "TRUE", "FixD5": "TRUE", "FixD11": "TRUE", "FixD3": "TRUE", "FixD13": "TRUE", "RoundFastSet": "{TRUE}", "MaxCfgReqs": 0, "EdAddPromote": "{}", "EdAddNonvoter": "{}", "EdPromote": "{}", "EdDemote": "{}", "EdRemove": "{}", "EdForceRemove": "{}",
-    "FixD1": "TRUE", "FixD2": "TRUE", "MaxXfers": 0, "MaxXferTries": 2, "XferTargets": "{None}", "ClientOps": '{"update"}',
+    "FixD1": "TRUE", "FixD2": "TRUE", "FixD19": "TRUE", "MaxXfers": 0, "MaxXferTries": 2, "XferTargets": "{None}", "ClientOps": '{"update"}', "NetFaults": "FALSE",
 }
 
 
@@ -142,7 +142,10 @@ def ev_to_step(ev):
     if k == "timeout":
         return {"k": "timeout", "n": N(ev["n"])}
     if k in ("voteReq", "timeoutNowReq"):
-        return {"k": k, "from": N(ev["from"]), "to": N(ev["n"]), "term": ev["term"]}
+        st = {"k": k, "from": N(ev["from"]), "to": N(ev["n"]), "term": ev["term"]}
+        if ev.get("dropped"):
+            st["fail"] = True
+        return st
     if k in ("voteResp", "timeoutNowResp"):
         return {"k": k, "from": N(ev["from"]), "to": N(ev["n"]), "term": ev["term"]}
     if k == "takeSnapshot":
@@ -154,7 +157,10 @@ def ev_to_step(ev):
     if k in ("snapResp",):
         return {"k": "appendResp", "i": N(ev["i"]), "j": N(ev["j"])}
     if k in ("replSend", "appendResp", "replFail", "replPoll"):
-        return {"k": k, "i": N(ev["i"]), "j": N(ev["j"])}
+        st = {"k": k, "i": N(ev["i"]), "j": N(ev["j"])}
+        if ev.get("dialFail"):
+            st["fail"] = True
+        return st
     if k == "appendReq":
         return {"k": k, "i": N(ev["i"]), "j": N(ev["j"])}
     if k == "ldrUpdates":
@@ -384,7 +390,7 @@ _obs_seq = 0
 # ---------------------------------------------------------------- trace validation (T)
 TRACE_CONSTS = {"None": "0", "MaxTerm": 100000, "MaxLog": 100000, "MaxCmds": 100000, "MaxCrash": 100000, "MaxInflight": 100000,
                 "MaxElections": 100000, "Orphans": "TRUE", "Reduce": "FALSE", "KeepHist": "FALSE",
-                "MaxRoundOrd": 100000, "MaxCfgReqs": 100000, "MaxSnaps": 100000, "RoundFastSet": "{TRUE, FALSE}", "MaxXfers": 100000, "MaxXferTries": 100000}
+                "MaxRoundOrd": 100000, "MaxCfgReqs": 100000, "MaxSnaps": 100000, "RoundFastSet": "{TRUE, FALSE}", "MaxXfers": 100000, "MaxXferTries": 100000, "NetFaults": "TRUE"}
 
 
 def _trace_one(records, workdir, sched0, timeout=900, max_drifts=4):
